@@ -199,6 +199,10 @@ type MessageTransport struct {
 }
 
 func (msg *MessageTransport) FromBytes(src []byte) error {
+	// Any MessageTransport has at least 32 bytes (the header and the tag of an empty packet).
+	if len(src) < MessageTransportBytesMin {
+		return ErrInvalidSourceLength
+	}
 	buf := bytes.NewBuffer(src)
 	if err := binary.Read(buf, MessageBytesOrder, &msg.Type); err != nil {
 		return err
